@@ -163,8 +163,17 @@ def generate(seed, tier):
              const_kinds=("i", "i", "f", "b", "npi", "npf", "c"), const_values=(0, 1, 2, -1, 3, 7))
     g.extra_fields = dict(GA_FIELDS)
     g.extra_fields.update(USER_FIELDS)
-    ga = _Gen(r, classes=ARITH, max_depth=3, pool=[], idents=["x", "y", "z"], p_leaf=0.35,
-              const_kinds=("i", "f"), const_values=(1, 2, 3, 5))
+    class _ArithGen(_Gen):
+        def node(self, cls, depth):
+            if cls == "Power":
+                # small powers of a variable only: the Python text of nested powers is
+                # right-associative (z**5**x**y) and explodes when it is evaluated
+                return ["n", "Power", [["n", "Variable", [["s", self.rng.choice(self.idents)]]],
+                                       ["i", self.rng.choice([2, 3])]]]
+            return super().node(cls, depth)
+
+    ga = _ArithGen(r, classes=ARITH, max_depth=3, pool=[], idents=["x", "y", "z"], p_leaf=0.35,
+                   const_kinds=("i", "f"), const_values=(1, 2, 3, 5))
     terms = []
     for _ in range(r.randint(2, 5)):
         t = g.term(0)
